@@ -664,7 +664,17 @@ def _v_detect_binary_integer_columns_only(tree):
         raise M.Skip("non-zero scan not found")
 
 
+def _v_duplicate_rows_dropped_by_lhs(tree):
+    g = M.find_func(tree, "solve_milp")
+    k = [i for i, st in enumerate(g.body) if isinstance(st, ast.Assign) and M.src_is(st.targets[0], "int_set")]
+    if not k:
+        raise M.Skip("int_set assignment not found")
+    g.body[k[0]:k[0]] = M.stmts("unique_rows = {}\nfor row, rhs in zip(A, b):\n    unique_rows.setdefault(tuple(row), rhs)\nif len(unique_rows) < len(b):\n    A = [list(row) for row in unique_rows]\n    b = list(unique_rows.values())")
+
+
 VARIANTS = [
+    M.Variant("rows with equal left-hand sides collapsed to the first one, whatever their right-hand sides (seed C04-O)", ML, _v_duplicate_rows_dropped_by_lhs, "C04-G15"),
+
     M.Variant("a root LP that ran out of iterations is used like an optimal one (original defect)", ML, _v_root_budget_unchecked, "C04-O4"),
     M.Variant("a node LP that ran out of iterations is dropped without a trace (original defect)", ML, _v_node_budget_dropped, "C04-O"),
     M.Variant("the gap-based OPTIMAL ignores unresolved node LPs", ML, _v_gap_exit_ignores_flag, "C04-O4"),
